@@ -6,6 +6,7 @@ Generates coq/Gen/SqlConst.v from nostr_relay/storage/db.py:
   indexed_long_names     the tag names process_tags indexes besides single letters
   sql_interpolations_ok  interpolation lint of evaluate_filter / build_query: every value pasted into the SQL text is
                          a hex-validated id/author, an integer, or the result of sql_text_literal placed between quotes
+  sql_waits_scoped       db.py / base.py hold slots, locks and transactions only through (async) with and shield nothing
 """
 import ast
 import os
@@ -178,4 +179,23 @@ def generate(repo, outdir):
             print("pyfrag sql lint: " + p)
         return txt + "Definition sql_interpolations_ok : bool := %s.\n" % ("true" if not probs else "false")
     target(out, "sql_const.lint", lint)
+
+    def waits():
+        """the SQL model gives a save or a query that fails or is cancelled no lasting effect on later operations: true when every
+        slot / lock / transaction is held through `async with` / `with` (released on every way out) and nothing is shielded from
+        cancellation; an explicit acquire()/release() pair or asyncio.shield is outside what the model describes"""
+        probs = []
+        for rel in ("nostr_relay/storage/db.py", "nostr_relay/storage/base.py"):
+            tr_ = tree if rel.endswith("db.py") else ast.parse(open(os.path.join(repo, rel)).read())
+            for n in ast.walk(tr_):
+                if isinstance(n, ast.Call):
+                    f = n.func
+                    if isinstance(f, ast.Attribute) and f.attr in ("acquire", "release", "shield"):
+                        probs.append("%s line %d: %s" % (rel, n.lineno, ast.unparse(f)))
+                    elif isinstance(f, ast.Name) and f.id == "shield":
+                        probs.append("%s line %d: shield" % (rel, n.lineno))
+        for p in probs:
+            print("pyfrag sql waits lint: " + p)
+        return "Definition sql_waits_scoped : bool := %s.\n" % ("true" if not probs else "false")
+    target(out, "sql_const.waits", waits)
     emit(os.path.join(outdir, "SqlConst.v"), "\n".join(out))
